@@ -901,7 +901,34 @@ func (x *Ctx) nullGuard(r *core.Result, rs *core.RuleStat, name string) {
 			}
 		}
 	}
+	// the re-check may sit in a private predicate helper (firstTokenIsNull(data) bool)
+	var predCall *ssa.Call
+	predFalseCertifies, predTrueCertifies := false, false
 	if peek == nil {
+		for _, b := range fn.Blocks {
+			for _, ins := range b.Instrs {
+				c, ok := ins.(*ssa.Call)
+				if !ok || predCall != nil {
+					continue
+				}
+				h := c.Call.StaticCallee()
+				if h == nil || !x.isPrivateHelper(h) || h.Blocks == nil || h.Signature.Results().Len() != 1 || len(h.Params) != len(c.Call.Args) {
+					continue
+				}
+				if bt, isB := h.Signature.Results().At(0).Type().Underlying().(*types.Basic); !isB || bt.Kind() != types.Bool {
+					continue
+				}
+				for i, a := range c.Call.Args {
+					if unspill(a) == ssa.Value(fn.Params[1]) {
+						if f, t, ok := x.nullPredicate(h, h.Params[i], nullName); ok {
+							predCall, predFalseCertifies, predTrueCertifies = c, f, t
+						}
+					}
+				}
+			}
+		}
+	}
+	if peek == nil && predCall == nil {
 		r.Fail(rs, name+":null", x.W.Pos(fn.Pos()), "no re-check of the first token against null: the handler machines accept the literal null, so "+name+" would succeed on it")
 		return
 	}
@@ -913,11 +940,21 @@ func (x *Ctx) nullGuard(r *core.Result, rs *core.RuleStat, name string) {
 		if !ok {
 			return false
 		}
+		onTrue := succ == 0
+		if predCall != nil {
+			c, inv := iff.Cond, false
+			if u, isNot := c.(*ssa.UnOp); isNot && u.Op == token.NOT {
+				c, inv = u.X, true
+			}
+			if c == ssa.Value(predCall) {
+				taken := onTrue != inv // the predicate's value on this edge
+				return (taken && predTrueCertifies) || (!taken && predFalseCertifies)
+			}
+		}
 		be, ok := iff.Cond.(*ssa.BinOp)
 		if !ok {
 			return false
 		}
-		onTrue := succ == 0
 		// len(container) ? k
 		if lc, ok := be.X.(*ssa.Call); ok {
 			if bi, isB := lc.Call.Value.(*ssa.Builtin); isB && bi.Name() == "len" && len(lc.Call.Args) == 1 && x.isContainerField(lc.Call.Args[0]) {
@@ -936,7 +973,7 @@ func (x *Ctx) nullGuard(r *core.Result, rs *core.RuleStat, name string) {
 			return false
 		}
 		ex, ok := be.X.(*ssa.Extract)
-		if !ok || ex.Tuple != ssa.Value(peek) {
+		if !ok || peek == nil || ex.Tuple != ssa.Value(peek) {
 			return false
 		}
 		switch {
@@ -1465,4 +1502,142 @@ func (x *Ctx) correlatedNonNil(v ssa.Value, b *ssa.BasicBlock) bool {
 		}
 	}
 	return false
+}
+
+// nullPredicate: h is a loop-free boolean helper that peeks at the first token of its parameter data. Its paths are
+// enumerated (phis resolved by the edge taken); "the null situation" is: the peek succeeded and the token is null.
+// falseCertifies: h never returns false in the null situation (so its false outcome proves "not null or peek failed");
+// trueCertifies: h never returns true in the null situation.
+func (x *Ctx) nullPredicate(h *ssa.Function, data *ssa.Parameter, nullName string) (falseCertifies, trueCertifies, ok bool) {
+	var peek *ssa.Call
+	for _, b := range h.Blocks {
+		for _, ins := range b.Instrs {
+			if c, isC := ins.(*ssa.Call); isC && c.Call.StaticCallee() != nil && c.Call.StaticCallee().Name() == "NextTokenType" && x.W.InLib(c.Call.StaticCallee()) {
+				if len(c.Call.Args) != 1 || unspill(c.Call.Args[0]) != ssa.Value(data) || peek != nil {
+					return false, false, false
+				}
+				peek = c
+			}
+		}
+	}
+	if peek == nil {
+		return false, false, false
+	}
+	// value of a boolean expression in the null situation: 1 true, 0 false, -1 unknown
+	var inNull func(v ssa.Value) int
+	inNull = func(v ssa.Value) int {
+		switch t := v.(type) {
+		case *ssa.Const:
+			if t.Value != nil && t.Value.Kind() == constant.Bool {
+				if constant.BoolVal(t.Value) {
+					return 1
+				}
+				return 0
+			}
+		case *ssa.UnOp:
+			if t.Op == token.NOT {
+				if r := inNull(t.X); r >= 0 {
+					return 1 - r
+				}
+			}
+		case *ssa.BinOp:
+			ex, isEx := t.X.(*ssa.Extract)
+			if !isEx || ex.Tuple != ssa.Value(peek) || (t.Op != token.EQL && t.Op != token.NEQ) {
+				return -1
+			}
+			eq := -1
+			if isErrT(ex.Type()) && isNilConst(t.Y) {
+				eq = 1 // the peek succeeded: err == nil
+			} else if ex.Index == 0 {
+				if k, okc := constBig(t.Y); okc {
+					if fmt.Sprint(k) == nullName {
+						eq = 1
+					} else {
+						eq = 0 // compared with another token type: differs from null
+					}
+				}
+			}
+			if eq < 0 {
+				return -1
+			}
+			if t.Op == token.NEQ {
+				return 1 - eq
+			}
+			return eq
+		}
+		return -1
+	}
+	falseCertifies, trueCertifies = true, true
+	npaths := 0
+	var walk func(b, pred *ssa.BasicBlock, env map[*ssa.Phi]ssa.Value, depth int) bool
+	walk = func(b, pred *ssa.BasicBlock, env map[*ssa.Phi]ssa.Value, depth int) bool {
+		if depth > 40 || npaths > 200 {
+			return false
+		}
+		ne := map[*ssa.Phi]ssa.Value{}
+		for k, v := range env {
+			ne[k] = v
+		}
+		res := func(v ssa.Value) ssa.Value {
+			for i := 0; i < 10; i++ {
+				ph, isPhi := v.(*ssa.Phi)
+				if !isPhi {
+					break
+				}
+				r, okr := ne[ph]
+				if !okr {
+					break
+				}
+				v = r
+			}
+			return v
+		}
+		if pred != nil {
+			for _, ins := range b.Instrs {
+				ph, isPhi := ins.(*ssa.Phi)
+				if !isPhi {
+					break
+				}
+				for i, p := range b.Preds {
+					if p == pred {
+						ne[ph] = res(ph.Edges[i])
+					}
+				}
+			}
+		}
+		switch t := b.Instrs[len(b.Instrs)-1].(type) {
+		case *ssa.Return:
+			npaths++
+			switch inNull(res(t.Results[0])) {
+			case 1:
+				trueCertifies = false
+			case 0:
+				falseCertifies = false
+			default:
+				trueCertifies, falseCertifies = false, false
+			}
+			return true
+		case *ssa.Jump:
+			return walk(b.Succs[0], b, ne, depth+1)
+		case *ssa.If:
+			v := inNull(res(t.Cond))
+			for i, sc := range b.Succs {
+				// an edge that cannot be taken in the null situation is of no interest
+				if (v == 1 && i == 1) || (v == 0 && i == 0) {
+					continue
+				}
+				if !walk(sc, b, ne, depth+1) {
+					return false
+				}
+			}
+			return true
+		case *ssa.Panic:
+			return true
+		}
+		return false
+	}
+	if !walk(h.Blocks[0], nil, map[*ssa.Phi]ssa.Value{}, 0) || npaths == 0 {
+		return false, false, false
+	}
+	return falseCertifies, trueCertifies, falseCertifies || trueCertifies
 }
